@@ -1,6 +1,7 @@
 package watch
 
 import (
+	"strings"
 	"sync"
 	"time"
 
@@ -47,6 +48,21 @@ type Watcher struct {
 	eventsWg sync.WaitGroup
 }
 
+// collapseDoublestars drops a "**" path component that directly follows another one.
+// doublestar.Glob (unlike doublestar.PathMatch) reads the second of two adjacent "**" as "*",
+// so "**/**/x" would not select "x" in the base directory.
+func collapseDoublestars(pattern string) string {
+	components := strings.Split(pattern, "/")
+	out := components[:0]
+	for i, c := range components {
+		if c == "**" && i > 0 && components[i-1] == "**" {
+			continue
+		}
+		out = append(out, c)
+	}
+	return strings.Join(out, "/")
+}
+
 // NewWatcher creates new Watcher instance
 func NewWatcher(name string, events, watch, exclude []string, t *task.Task) (w *Watcher, err error) {
 	w = &Watcher{
@@ -64,7 +80,7 @@ func NewWatcher(name string, events, watch, exclude []string, t *task.Task) (w *
 	}
 
 	for _, p := range watch {
-		matches, err := doublestar.Glob(p)
+		matches, err := doublestar.Glob(collapseDoublestars(p))
 		if err != nil {
 			return nil, err
 		}
